@@ -379,6 +379,9 @@ class Check:
             tail = "" if v["kind"] == "impl" else " no-failing-input-found"
             print(f"VIOLATION property={self.prop} replay={path}{tail}")
             print(f"  [{v['kind']}] {v['sig']}: {v['what']}")
+        if impl:
+            for v in [v for v in unlisted if v["kind"] != "impl"][:4]:
+                print(f"  also broken: [{v['kind']}] {v['sig']}: {v['what'][:300]}")
         return 1
 
 
